@@ -126,6 +126,26 @@ func runC14(prop string, res *Result, pool *DrvPool, r *Rng) {
 			res.Sample(map[string]interface{}{"goroutines": len(gs), "history": fmt.Sprint(hist)})
 		}
 	}
+	// the options value is an input too: scanning must not modify it
+	for i := 0; i < countN(res.Tier, 40, 600); i++ {
+		gp := []string{"/nonexistent/gp", "/nonexistent/a/longer/gopath", "/nonexistent/mid/gp", "/x"}
+		for j, k := range r.Perm(len(gp)) {
+			gp[j], gp[k] = gp[k], gp[j]
+		}
+		gp = gp[:1+r.Intn(len(gp))]
+		opts := &stack.Opts{NameArguments: r.Bool(), GuessPaths: true, AnalyzeSources: r.Bool(), LocalGOROOT: goroot, LocalGOPATHs: gp}
+		before := fmt.Sprintf("%+v", *opts)
+		in := GenCfg(r).Dump(GenDump(r, 4, 3))
+		if p := catch(func() { stack.ScanSnapshot(strings.NewReader(in), io.Discard, opts) }); p != nil {
+			res.Violation(Finding{Stream: "opts", What: fmt.Sprintf("ScanSnapshot panicked: %v", p), Op: map[string]interface{}{"input": hb(in), "opts": before}})
+			continue
+		}
+		res.Count("opts-unchanged-checks")
+		if after := fmt.Sprintf("%+v", *opts); after != before {
+			res.Violation(Finding{Stream: "opts", What: "ScanSnapshot modified the options value it was given (shared between calls and goroutines): " + before + " became " + after, Op: map[string]interface{}{"input": hb(in), "opts": before}})
+			break
+		}
+	}
 	runRaceProgram(res)
 	// model correspondence of the aggregation itself is C04's; here: aggregate twice = same
 	aggCasesDiv = 4
